@@ -1,6 +1,7 @@
 import Lemmas.BitSetHist
 import Lemmas.BitSetOps
 import Lemmas.BitSetStore
+import Lemmas.BitSetSearch
 /-! C08: laws that combine two or more calls — `Data` as a canonical form, `Trim` idempotent, the range forms as
     iterated single-index forms, `Equal` as an equivalence relation. -/
 namespace BS
@@ -67,38 +68,41 @@ theorem foldl_inv (op : T → Nat → T) (hop : ∀ b i, Inv b → Inv (op b i))
   | nil => intro b h; exact h
   | cons i l ih => intro b h; exact ih _ (hop b i h)
 
+theorem range_step (lo n x : Nat) :
+    (decide (x = lo) || decide (lo + 1 ≤ x ∧ x < lo + 1 + n)) = decide (lo ≤ x ∧ x < lo + (n + 1)) := by
+  rw [← Bool.decide_or]; apply decide_eq_decide.mpr; omega
+
+theorem range_zero (lo x : Nat) : decide (lo ≤ x ∧ x < lo + 0) = false := by
+  apply decide_eq_false; omega
+
 theorem foldl_setBit_mem (n : Nat) : ∀ (b : T) (lo x : Nat),
     mem ((List.range' lo n).foldl setBit b) x = (mem b x || decide (lo ≤ x ∧ x < lo + n)) := by
   induction n with
-  | zero => intro b lo x; simp
+  | zero => intro b lo x; rw [range_zero]; simp
   | succ n ih =>
     intro b lo x
-    rw [List.range'_succ, List.foldl_cons, ih, setBit_mem]
-    cases mem b x <;> simp <;> omega
+    rw [List.range'_succ, List.foldl_cons, ih, setBit_mem, Bool.or_assoc, range_step]
 
 theorem foldl_clearBit_mem (n : Nat) : ∀ (b : T) (lo x : Nat),
     mem ((List.range' lo n).foldl clearBit b) x = (mem b x && !decide (lo ≤ x ∧ x < lo + n)) := by
   induction n with
-  | zero => intro b lo x; simp
+  | zero => intro b lo x; rw [range_zero]; simp
   | succ n ih =>
     intro b lo x
-    rw [List.range'_succ, List.foldl_cons, ih, clearBit_mem]
-    cases mem b x <;> simp <;> omega
+    rw [List.range'_succ, List.foldl_cons, ih, clearBit_mem, Bool.and_assoc, ← Bool.not_or, range_step]
 
 theorem foldl_flipBit_mem (n : Nat) : ∀ (b : T) (lo x : Nat),
     mem ((List.range' lo n).foldl flipBit b) x = (mem b x ^^ decide (lo ≤ x ∧ x < lo + n)) := by
   induction n with
-  | zero => intro b lo x; simp
+  | zero => intro b lo x; rw [range_zero]; simp
   | succ n ih =>
     intro b lo x
-    rw [List.range'_succ, List.foldl_cons, ih, flipBit_mem]
+    rw [List.range'_succ, List.foldl_cons, ih, flipBit_mem, Bool.xor_assoc, ← range_step]
     by_cases h1 : x = lo
-    · subst h1; cases mem b x <;> simp
-    · have e1 : decide (x = lo) = false := by simpa using h1
-      rw [e1]
-      have e2 : decide (lo + 1 ≤ x ∧ x < lo + 1 + n) = decide (lo ≤ x ∧ x < lo + (n + 1)) := by
-        apply decide_eq_decide.mpr; omega
-      rw [e2]; simp
+    · have e2 : decide (lo + 1 ≤ x ∧ x < lo + 1 + n) = false := by apply decide_eq_false; omega
+      rw [e2]; simp [h1]
+    · have e1 : decide (x = lo) = false := decide_eq_false h1
+      rw [e1]; simp
 
 /-- the indexes of the closed range between the two arguments, in increasing order -/
 def rangeIdx (s e : Nat) : List Nat := List.range' (min s e) (max s e - min s e + 1)
@@ -121,5 +125,161 @@ theorem equal_symm (a b : T) : equal a b = equal b a := by
 theorem equal_trans (a b c : T) (h1 : equal a b = true) (h2 : equal b c = true) : equal a c = true := by
   rw [equal_iff_raw] at *
   exact ⟨h1.1.trans h2.1, fun x => (h1.2 x).trans (h2.2 x)⟩
+
+
+/-! ### the range forms as iterated single-index forms: members AND count -/
+
+theorem setRange_iterated (b : T) (s e : Nat) (hb : Inv b) :
+    (∀ x, mem (setRange b s e) x = mem ((rangeIdx s e).foldl setBit b) x)
+    ∧ count (setRange b s e) = count ((rangeIdx s e).foldl setBit b) := by
+  have hm : ∀ x, mem (setRange b s e) x = mem ((rangeIdx s e).foldl setBit b) x := fun x => by
+    unfold rangeIdx; rw [setRange_mem, foldl_setBit_mem, rangeIdx_decide]
+  exact ⟨hm, count_of_mem _ _ ((setRange_spec b s e).2 hb) (foldl_inv setBit (fun b i h => setBit_inv b i h) _ b hb) hm⟩
+
+theorem clearRange_iterated (b : T) (s e : Nat) (hb : Inv b) :
+    (∀ x, mem (clearRange b s e) x = mem ((rangeIdx s e).foldl clearBit b) x)
+    ∧ count (clearRange b s e) = count ((rangeIdx s e).foldl clearBit b) := by
+  have hm : ∀ x, mem (clearRange b s e) x = mem ((rangeIdx s e).foldl clearBit b) x := fun x => by
+    unfold rangeIdx; rw [clearRange_mem, foldl_clearBit_mem, rangeIdx_decide]
+  exact ⟨hm, count_of_mem _ _ ((clearRange_spec b s e).2 hb) (foldl_inv clearBit (fun b i h => clearBit_inv b i h) _ b hb) hm⟩
+
+theorem flipRange_iterated (b : T) (s e : Nat) (hb : Inv b) :
+    (∀ x, mem (flipRange b s e) x = mem ((rangeIdx s e).foldl flipBit b) x)
+    ∧ count (flipRange b s e) = count ((rangeIdx s e).foldl flipBit b) := by
+  have hm : ∀ x, mem (flipRange b s e) x = mem ((rangeIdx s e).foldl flipBit b) x := fun x => by
+    unfold rangeIdx; rw [flipRange_mem, foldl_flipBit_mem, rangeIdx_decide]
+  exact ⟨hm, count_of_mem _ _ ((flipRange_spec b s e).2 hb) (foldl_inv flipBit (fun b i h => flipBit_inv b i h) _ b hb) hm⟩
+
+/-! ### observations are functions of the members: the answers of the searches are unique -/
+
+/-- "the least index at or after `s` where `p` is `t`, or -1" has one answer -/
+theorem least_unique (p : Nat → Bool) (t : Bool) (s : Nat) (v w : Int)
+    (hv : (v = -1 ∧ ∀ x, s ≤ x → p x = !t) ∨ ∃ r : Nat, v = Int.ofNat r ∧ s ≤ r ∧ p r = t ∧ ∀ x, s ≤ x → x < r → p x = !t)
+    (hw : (w = -1 ∧ ∀ x, s ≤ x → p x = !t) ∨ ∃ r : Nat, w = Int.ofNat r ∧ s ≤ r ∧ p r = t ∧ ∀ x, s ≤ x → x < r → p x = !t) :
+    v = w := by
+  rcases hv with ⟨hv, hn⟩ | ⟨r, hv, hr, hp, hm⟩ <;> rcases hw with ⟨hw, hn'⟩ | ⟨r', hw, hr', hp', hm'⟩
+  · rw [hv, hw]
+  · have := hn r' hr'; rw [hp'] at this; cases t <;> simp at this
+  · have := hn' r hr; rw [hp] at this; cases t <;> simp at this
+  · have : r = r' := by
+      rcases Nat.lt_trichotomy r r' with h | h | h
+      · have := hm' r hr h; rw [hp] at this; cases t <;> simp at this
+      · exact h
+      · have := hm r' hr' h; rw [hp'] at this; cases t <;> simp at this
+    rw [hv, hw, this]
+
+/-- "the greatest index at or before `s` where `p` is `t`, or -1" has one answer -/
+theorem greatest_unique (p : Nat → Bool) (t : Bool) (s : Nat) (v w : Int)
+    (hv : (v = -1 ∧ ∀ x, x ≤ s → p x = !t) ∨ ∃ r : Nat, v = Int.ofNat r ∧ r ≤ s ∧ p r = t ∧ ∀ x, r < x → x ≤ s → p x = !t)
+    (hw : (w = -1 ∧ ∀ x, x ≤ s → p x = !t) ∨ ∃ r : Nat, w = Int.ofNat r ∧ r ≤ s ∧ p r = t ∧ ∀ x, r < x → x ≤ s → p x = !t) :
+    v = w := by
+  rcases hv with ⟨hv, hn⟩ | ⟨r, hv, hr, hp, hm⟩ <;> rcases hw with ⟨hw, hn'⟩ | ⟨r', hw, hr', hp', hm'⟩
+  · rw [hv, hw]
+  · have := hn r' hr'; rw [hp'] at this; cases t <;> simp at this
+  · have := hn' r hr; rw [hp] at this; cases t <;> simp at this
+  · have : r = r' := by
+      rcases Nat.lt_trichotomy r r' with h | h | h
+      · have := hm r' h hr'; rw [hp'] at this; cases t <;> simp at this
+      · exact h
+      · have := hm' r h hr; rw [hp] at this; cases t <;> simp at this
+    rw [hv, hw, this]
+
+/-- "the greatest member, or -1" has one answer -/
+theorem last_unique (p : Nat → Bool) (v w : Int)
+    (hv : (v = -1 ∧ ∀ x, p x = false) ∨ ∃ r : Nat, v = Int.ofNat r ∧ p r = true ∧ ∀ x, r < x → p x = false)
+    (hw : (w = -1 ∧ ∀ x, p x = false) ∨ ∃ r : Nat, w = Int.ofNat r ∧ p r = true ∧ ∀ x, r < x → p x = false) :
+    v = w := by
+  rcases hv with ⟨hv, hn⟩ | ⟨r, hv, hp, hm⟩ <;> rcases hw with ⟨hw, hn'⟩ | ⟨r', hw, hp', hm'⟩
+  · rw [hv, hw]
+  · have := hn r'; rw [hp'] at this; cases this
+  · have := hn' r; rw [hp] at this; cases this
+  · have : r = r' := by
+      rcases Nat.lt_trichotomy r r' with h | h | h
+      · have := hm r' h; rw [hp'] at this; cases this
+      · exact h
+      · have := hm' r h; rw [hp] at this; cases this
+    rw [hv, hw, this]
+
+theorem mem_funext (a b : T) (h : ∀ x, mem a x = mem b x) : mem a = mem b := funext h
+
+theorem nextSet_ext (a b : T) (h : ∀ x, mem a x = mem b x) (s : Nat) : nextSet a s = nextSet b s := by
+  have ha := nextSet_spec a s
+  rw [mem_funext a b h] at ha
+  exact least_unique (mem b) true s _ _ ha (nextSet_spec b s)
+
+theorem previousSet_ext (a b : T) (h : ∀ x, mem a x = mem b x) (s : Nat) : previousSet a s = previousSet b s := by
+  have ha := previousSet_spec a s
+  rw [mem_funext a b h] at ha
+  exact greatest_unique (mem b) true s _ _ ha (previousSet_spec b s)
+
+theorem nextClear_ext (a b : T) (h : ∀ x, mem a x = mem b x) (s : Nat) : nextClear a s = nextClear b s := by
+  have ha := nextClear_spec a s
+  rw [mem_funext a b h] at ha
+  exact least_unique (mem b) false s _ _ (Or.inr ha) (Or.inr (nextClear_spec b s))
+
+theorem previousClear_ext (a b : T) (h : ∀ x, mem a x = mem b x) (s : Nat) : previousClear a s = previousClear b s := by
+  have ha := previousClear_spec a s
+  rw [mem_funext a b h] at ha
+  exact greatest_unique (mem b) false s _ _ ha (previousClear_spec b s)
+
+theorem firstSet_ext (a b : T) (h : ∀ x, mem a x = mem b x) : firstSet a = firstSet b := nextSet_ext a b h 0
+
+theorem lastSet_ext (a b : T) (h : ∀ x, mem a x = mem b x) : lastSet a = lastSet b := by
+  have ha := lastSet_spec a
+  rw [mem_funext a b h] at ha
+  exact last_unique (mem b) _ _ ha (lastSet_spec b)
+
+theorem state_ext (a b : T) (h : ∀ x, mem a x = mem b x) (i : Nat) : state a i = state b i := by
+  rw [state_eq_mem, state_eq_mem, h]
+
+theorem equal_ext (a b c : T) (ha : Inv a) (hb : Inv b) (h : ∀ x, mem a x = mem b x) : equal a c = equal b c := by
+  have hc := count_of_mem a b ha hb h
+  apply Bool.eq_iff_iff.mpr
+  rw [equal_iff_raw, equal_iff_raw]
+  unfold count at hc
+  rw [hc]
+  constructor
+  · exact fun ⟨h1, h2⟩ => ⟨h1, fun x => (h x).symm.trans (h2 x)⟩
+  · exact fun ⟨h1, h2⟩ => ⟨h1, fun x => (h x).trans (h2 x)⟩
+
+/-! ### history level: calls that are not supposed to change the set can be erased from a history -/
+
+/-- `Trim`, `EnsureCapacity`, `Data` -/
+def Op.isStorageOnly : Op → Bool
+  | .trim _ | .ensure _ _ | .data _ => true
+  | _ => false
+
+theorem specRun_erase (ops : List Op) : ∀ sp : SPair,
+    (ops.filter (fun o => !o.isStorageOnly)).foldl specOp sp = ops.foldl specOp sp := by
+  induction ops with
+  | nil => intro sp; rfl
+  | cons op ops ih =>
+    intro sp
+    by_cases hs : op.isStorageOnly = true
+    · have e : specOp sp op = sp := by
+        cases op <;> first | rfl | (simp [Op.isStorageOnly] at hs)
+      rw [List.filter_cons_of_neg (by simp [hs]), List.foldl_cons, ih, e]
+    · rw [List.filter_cons_of_pos (by simp [hs]), List.foldl_cons, List.foldl_cons, ih]
+
+
+/-- every observation the API offers gives the same answer on `a` and on `b` (and against any third bit set) -/
+def ObsEq (a b : T) : Prop :=
+  (∀ i, state a i = state b i) ∧ count a = count b ∧ firstSet a = firstSet b ∧ lastSet a = lastSet b
+  ∧ (∀ s, nextSet a s = nextSet b s) ∧ (∀ s, previousSet a s = previousSet b s)
+  ∧ (∀ s, nextClear a s = nextClear b s) ∧ (∀ s, previousClear a s = previousClear b s)
+  ∧ (data a).2 = (data b).2 ∧ equal a b = true ∧ (∀ c, equal a c = equal b c) ∧ (∀ c, equal c a = equal c b)
+
+theorem obsEq_of_mem (a b : T) (ha : Inv a) (hb : Inv b) (h : ∀ x, mem a x = mem b x) : ObsEq a b :=
+  ⟨state_ext a b h, count_of_mem a b ha hb h, firstSet_ext a b h, lastSet_ext a b h, nextSet_ext a b h,
+   previousSet_ext a b h, nextClear_ext a b h, previousClear_ext a b h, (data_canonical a b).mp h,
+   (equal_iff a b ha hb).mpr h, fun c => equal_ext a b c ha hb h,
+   fun c => by rw [equal_symm c a, equal_symm c b]; exact equal_ext a b c ha hb h⟩
+
+/-- a history and the same history without its `Trim` / `EnsureCapacity` / `Data` calls denote the same two sets -/
+theorem run_erase_mem (ops : List Op) (r : Reg) (x : Nat) :
+    mem ((run ops).get r) x = mem ((run (ops.filter (fun o => !o.isStorageOnly))).get r) x := by
+  rw [run_mem ops r x, run_mem _ r x]
+  unfold specRun
+  rw [specRun_erase]
 
 end BS
